@@ -82,6 +82,19 @@ class MySQLModel(data_algebra.db_model.DBModel):
             )
         return self.identifier_quote + identifier + self.identifier_quote
 
+    def quote_string(self, string: str) -> str:
+        """
+        Quote a string value. Backslash is an escape character in MySQL string literals.
+        """
+        assert isinstance(string, str)
+        return (
+            self.string_quote
+            + string.replace("\\", "\\\\").replace(
+                self.string_quote, self.string_quote + self.string_quote
+            )
+            + self.string_quote
+        )
+
 
 def example_handle():
     """
